@@ -482,6 +482,8 @@ pub struct DevState {
     /// the streams this device receives through `fill_contiguous` are finite by the property under
     /// check (C09: image colour streams), so its DrainBounded discipline may drain without bound
     pub unbounded_ok: bool,
+    /// a colour stream yielded again after it had returned None (seen by the draining consumer)
+    pub resumed_after_end: bool,
 }
 
 pub struct SimDisplay<C: SimColor> {
@@ -542,6 +544,7 @@ impl DevState {
             trace: Hash64::new(),
             max_surplus: 0,
             unbounded_ok: false,
+            resumed_after_end: false,
         }
     }
 
@@ -1021,21 +1024,41 @@ impl<C: SimColor> SimDisplay<C> {
                     Some(c) => place(st, &ra, w, n, &mut idx, &mut pulled, c.to_u32()),
                 }
             }
+            // a burst consumer sizes the rest of the transfer by the hint it reads now
+            let (hint_mid, at_mid) = (colors.size_hint(), pulled);
             if !ended {
                 reach(0);
-                colors.for_each(|c| {
+                colors.by_ref().for_each(|c| {
                     if pulled > n + UNBOUNDED_LIMIT {
                         abort_unbounded();
                     }
                     place(st, &ra, w, n, &mut idx, &mut pulled, c.to_u32());
                 });
             }
+            let total = pulled;
+            // a chunked consumer refills until a refill comes back empty, i.e. it polls once more
+            // after the end: a stream that resumes after its end contains more colours than it said
+            for _ in 0..2 {
+                if let Some(c) = colors.next() {
+                    place(st, &ra, w, n, &mut idx, &mut pulled, c.to_u32());
+                    if pulled <= n {
+                        // resumed inside the area: count it as surplus all the same
+                        st.max_surplus = st.max_surplus.max(1);
+                    }
+                    st.resumed_after_end = true;
+                }
+            }
             if st.cur_valid {
                 st.calls[st.cur].stream_ended = true;
             }
-            note_hint(WHAT, hint, pulled, Some(pulled));
+            note_hint(WHAT, hint, total, Some(total));
+            note_hint("colour stream passed to fill_contiguous, size_hint() read again mid-stream", hint_mid, total - at_mid, Some(total - at_mid));
             return Ok(());
         }
+        // where the generic consumers read the hint a second time: just after the first row change
+        let mid_at = w as u64 + 1 + ((ra.x0 + ra.y0) & 1) as u64;
+        let mut hint_mid: Option<((usize, Option<usize>), u64)> = None;
+        const WHAT_MID: &str = "colour stream passed to fill_contiguous, size_hint() read again mid-stream";
         loop {
             // decide whether to pull another colour, per discipline
             let have_point = idx < n;
@@ -1051,12 +1074,18 @@ impl<C: SimColor> SimDisplay<C> {
             if let Some(e) = st.fail_at_item(pulled) {
                 return Err(e);
             }
+            if pulled == mid_at {
+                hint_mid = Some((colors.size_hint(), pulled));
+            }
             match colors.next() {
                 None => {
                     if st.cur_valid {
                         st.calls[st.cur].stream_ended = true;
                     }
                     note_hint(WHAT, hint, pulled, Some(pulled));
+                    if let Some((hm, at)) = hint_mid {
+                        note_hint(WHAT_MID, hm, pulled - at, Some(pulled - at));
+                    }
                     return Ok(());
                 }
                 Some(c) => {
@@ -1068,6 +1097,9 @@ impl<C: SimColor> SimDisplay<C> {
             }
         }
         note_hint(WHAT, hint, pulled, None);
+        if let Some((hm, at)) = hint_mid {
+            note_hint(WHAT_MID, hm, pulled - at, None);
+        }
         Ok(())
     }
 
